@@ -2,6 +2,8 @@
 reports, per operation, the API-observable result plus the internal state components the model
 tracks; then repeats the last operation (the probe) in a fresh, interpreter-equivalent setup."""
 from collections import defaultdict
+import copy
+import json
 import yaml
 
 from sigma.backends.test import TextQueryTestBackend
@@ -36,8 +38,20 @@ def _item(d):
 def pipeline_yaml(items):
     return yaml.safe_dump({"name": "p", "priority": 10, "transformations": [_item(d) for d in items]})
 
+_PARSED = {}
+def _parsed(text):
+    """YAML text -> parsed document (parsed once per process, deep-copied per use: PyYAML dominates the run time otherwise)"""
+    if text not in _PARSED:
+        _PARSED[text] = yaml.safe_load(text)
+    return copy.deepcopy(_PARSED[text])
+
+_PIPE_YAML = {}
 def make_pipeline(items):
-    return ProcessingPipeline.from_yaml(pipeline_yaml(items))
+    """a new ProcessingPipeline object (new item objects) from the same definition"""
+    key = json.dumps(items, sort_keys=True)
+    if key not in _PIPE_YAML:
+        _PIPE_YAML[key] = pipeline_yaml(items)
+    return ProcessingPipeline.from_dict(_parsed(_PIPE_YAML[key]))
 
 TEMPLATE_ATTRS = ["eq_expression", "re_expression", "cidr_expression", "startswith_expression",
                   "case_sensitive_startswith_expression", "endswith_expression",
@@ -58,9 +72,9 @@ def make_class(k, cdef):
     return type(f"C15Backend{k}", (TextQueryTestBackend,), attrs)
 
 # ---- rules ----
-def rule_yaml(r, n):
+def rule_doc(r, n):
     if r.get("raw") is not None:
-        return r["raw"]
+        return _parsed(r["raw"])
     det = {}
     for name, items in r["dets"]:
         d = {}
@@ -76,7 +90,7 @@ def rule_yaml(r, n):
         det["condition"] = r["conds"] if len(r["conds"]) > 1 else r["conds"][0]
     doc = {"title": f"rule {n}", "logsource": ({"product": PRODUCT[r["product"]]} if r["product"] else {"category": "c"}),
            "detection": det}
-    return yaml.safe_dump(doc, sort_keys=False)
+    return doc
 
 def err(e):
     return ["err", type(e).__name__, isinstance(e, SigmaError)]
@@ -96,7 +110,7 @@ class World:
 
     def load(self, r):
         self.n += 1
-        return SigmaRule.from_yaml(rule_yaml(r, self.n))
+        return SigmaRule.from_dict(rule_doc(r, self.n))
 
     def internals(self):
         ci = _parse_condition_string.cache_info()
